@@ -5,6 +5,7 @@ mod c19;
 mod c17;
 mod lang;
 mod c16;
+mod c18;
 
 fn main() {
     common::install_panic_hook();
@@ -18,6 +19,7 @@ fn main() {
         "c19" => c19::main(&a),
         "c17" => c17::main(&a),
         "c16" => c16::main(&a),
+        "c18" => c18::main(&a),
         "features" => {
             println!("checks={} explanations={}", cfg!(feature = "checks"), cfg!(feature = "explanations"));
         }
